@@ -416,3 +416,7 @@ mutant("c19-bounded-cache-goes-stale-when-full", "C19", edits=[
             _BASE_CACHE[key] = max(D("0.0"), self.base_score_equation())
         self.base_score = _BASE_CACHE[key]""")],
     note="needs a history of >= 100 distinct CVSS2 base assignments before the probe")
+mutant("c17-main-returns-status-on-error", "C17", "cvss/cvss_calculator.py",
+       "        except CVSSError as e:\n            print(e)\n",
+       "        except CVSSError as e:\n            print(e)\n            return 1\n",
+       "main() returns 1 for an invalid vector: harmless for `python -m`, exit status 1 for the installed console script (sys.exit(main()))")
